@@ -1639,3 +1639,283 @@ theorem threshold_of_render_is_ball (vmin vmax R w d2 : ℝ) (h : vmin < vmax) (
     exact Real.sqrt_lt_sqrt hd hlt
 
 end DV.C01
+
+namespace DV.C01
+open Finset BigOperators DV.Merge DV.GridGeom DV.Render DV.BallConn DV.WrapDiff DV.C02
+
+/-! ### a physical separation of the centres implies `Separated` -/
+
+theorem dist2r_eq_sum : ∀ (axes : List Axis) (ctr : List ℚ) (idx : List ℕ), ctr.length = axes.length → idx.length = axes.length →
+    dist2r axes ctr idx = ∑ a ∈ Finset.range axes.length, diffAt axes ctr idx a * diffAt axes ctr idx a
+  | [], _, _, _, _ => by simp [dist2r]
+  | a :: as, [], _, h, _ => by simp at h
+  | a :: as, _ :: _, [], _, h => by simp at h
+  | a :: as, c :: cs, i :: is, h1, h2 => by
+    have ih := dist2r_eq_sum as cs is (by simpa using h1) (by simpa using h2)
+    simp only [dist2r, List.length_cons]
+    rw [Finset.sum_range_succ', ih]
+    simp only [diffAt, List.getD_cons_succ, List.getD_cons_zero]
+    ring
+
+/-- the periodic difference is the smallest representative -/
+theorem wrapDiff_min (L w w' : ℚ) (hL : 0 < L) (k : ℤ) (h : w' = w + k * L) : (wrapDiff L w) ^ 2 ≤ w' ^ 2 := by
+  obtain ⟨k0, hk0⟩ := wrapDiff_congr L w
+  obtain ⟨r1, r2⟩ := wrapDiff_range L w hL
+  set v := wrapDiff L w with hv
+  have hw' : w' = v + ((k + k0 : ℤ) : ℚ) * L := by rw [h, hk0]; push_cast; ring
+  rcases lt_trichotomy (k + k0) 0 with hneg | hzero | hposm
+  · have : ((k + k0 : ℤ) : ℚ) ≤ -1 := by exact_mod_cast Int.le_sub_one_of_lt hneg
+    have hle : w' ≤ v - L := by rw [hw']; nlinarith
+    nlinarith
+  · rw [hw', hzero]; simp
+  · have : (1 : ℚ) ≤ ((k + k0 : ℤ) : ℚ) := by exact_mod_cast hposm
+    have hge : v + L ≤ w' := by rw [hw']; nlinarith
+    nlinarith
+
+/-- Minkowski's inequality for three vectors, in squared form -/
+theorem minkowski3 (s : Finset ℕ) (a b c : ℕ → ℚ) (A B C : ℚ) (hA : 0 ≤ A) (hB : 0 ≤ B) (hC : 0 ≤ C)
+    (ha : ∑ i ∈ s, a i ^ 2 < A ^ 2) (hb : ∑ i ∈ s, b i ^ 2 ≤ B ^ 2) (hc : ∑ i ∈ s, c i ^ 2 ≤ C ^ 2) :
+    ∑ i ∈ s, (a i + b i + c i) ^ 2 < (A + B + C) ^ 2 := by
+  have cs : ∀ (f g : ℕ → ℚ) (F G : ℚ), 0 ≤ F → 0 ≤ G → ∑ i ∈ s, f i ^ 2 ≤ F ^ 2 → ∑ i ∈ s, g i ^ 2 ≤ G ^ 2 →
+      ∑ i ∈ s, f i * g i ≤ F * G := by
+    intro f g F G hF hG hf hg
+    have h := Finset.sum_mul_sq_le_sq_mul_sq s f g
+    have hf0 : 0 ≤ ∑ i ∈ s, f i ^ 2 := Finset.sum_nonneg fun i _ => sq_nonneg _
+    have hg0 : 0 ≤ ∑ i ∈ s, g i ^ 2 := Finset.sum_nonneg fun i _ => sq_nonneg _
+    have : (∑ i ∈ s, f i * g i) ^ 2 ≤ (F * G) ^ 2 := by
+      calc (∑ i ∈ s, f i * g i) ^ 2 ≤ (∑ i ∈ s, f i ^ 2) * (∑ i ∈ s, g i ^ 2) := h
+        _ ≤ F ^ 2 * G ^ 2 := mul_le_mul hf hg hg0 (sq_nonneg F)
+        _ = (F * G) ^ 2 := by ring
+    exact (abs_le_of_sq_le_sq' this (mul_nonneg hF hG)).2
+  have hab := cs a b A B hA hB ha.le hb
+  have hac := cs a c A C hA hC ha.le hc
+  have hbc := cs b c B C hB hC hb hc
+  have expand : ∑ i ∈ s, (a i + b i + c i) ^ 2 =
+      ∑ i ∈ s, a i ^ 2 + ∑ i ∈ s, b i ^ 2 + ∑ i ∈ s, c i ^ 2
+        + 2 * ∑ i ∈ s, a i * b i + 2 * ∑ i ∈ s, a i * c i + 2 * ∑ i ∈ s, b i * c i := by
+    simp only [Finset.mul_sum, ← Finset.sum_add_distrib]
+    apply Finset.sum_congr rfl
+    intro i _; ring
+  rw [expand]
+  nlinarith
+
+
+variable (axes : List Axis)
+
+/-- periodic difference of two centres along axis `a` -/
+def cdiff (p q : List ℚ) (a : ℕ) : ℚ :=
+  if (axes.getD a default).periodic = true then wrapDiff (axes.getD a default).length (p.getD a 0 - q.getD a 0)
+  else p.getD a 0 - q.getD a 0
+
+/-- squared distance of two centres under the grid's periodic metric -/
+def cdist2 (p q : List ℚ) : ℚ := ∑ a ∈ Finset.range axes.length, cdiff axes p q a ^ 2
+
+theorem D_eq_sum {ctr : List ℚ} (h : GridWF axes ctr) (c : ℕ) :
+    D axes ctr c = ∑ a ∈ Finset.range axes.length, U axes ctr c a ^ 2 := by
+  unfold D U
+  rw [dist2r_eq_sum axes ctr _ h.len (unflat_length axes ctr h c)]
+  apply Finset.sum_congr rfl
+  intro a _; ring
+
+theorem centre_coord_shift (ax : Axis) (i i' : ℕ) : ax.centre i' - ax.centre i = ((i' : ℚ) - i) * ax.dx := by
+  unfold Axis.centre; ring
+
+/-- the centres of two cells that are equal or face neighbours differ, along every axis, by at most one
+cell — up to one period along a periodic axis -/
+theorem step_offsets {p : List ℚ} (h : GridWF axes p) (hmax : ℚ) (hh : ∀ a ∈ axes, a.dx ≤ hmax)
+    {c c' : ℕ} (hadj : c = c' ∨ FaceAdj (shapeOf axes) (perOf axes) c c' ∨ FaceAdj (shapeOf axes) (perOf axes) c' c) :
+    ∃ (e : ℕ → ℚ) (j : ℕ → ℤ), ∑ a ∈ Finset.range axes.length, e a ^ 2 ≤ hmax ^ 2 ∧
+      ∀ a, a < axes.length →
+        (axes.getD a default).centre (coordOf (shapeOf axes) c' a) - (axes.getD a default).centre (coordOf (shapeOf axes) c a)
+          = e a + (j a : ℚ) * (axes.getD a default).length ∧
+        ((axes.getD a default).periodic = false → j a = 0) := by
+  have hdxle : ∀ k, k < axes.length → (axes.getD k default).dx ≤ hmax ∧ 0 < (axes.getD k default).dx := by
+    intro k hk
+    have hm : axes.getD k default ∈ axes := by
+      rw [List.getD_eq_getElem?_getD, List.getElem?_eq_getElem hk]; exact List.getElem_mem hk
+    exact ⟨hh _ hm, (h.wf _ hm).dx_pos⟩
+  -- generic construction: the two cells differ only along `ax`, by `s` cells plus `t` periods
+  have build : ∀ (ax : ℕ) (hax : ax < axes.length) (s : ℚ) (t : ℤ), (s = 1 ∨ s = -1) →
+      ((axes.getD ax default).periodic = false → t = 0) →
+      ((axes.getD ax default).centre (coordOf (shapeOf axes) c' ax) - (axes.getD ax default).centre (coordOf (shapeOf axes) c ax)
+          = s * (axes.getD ax default).dx + (t : ℚ) * (axes.getD ax default).length) →
+      (∀ a, a ≠ ax → coordOf (shapeOf axes) c' a = coordOf (shapeOf axes) c a) →
+      ∃ (e : ℕ → ℚ) (j : ℕ → ℤ), ∑ a ∈ Finset.range axes.length, e a ^ 2 ≤ hmax ^ 2 ∧
+        ∀ a, a < axes.length →
+          (axes.getD a default).centre (coordOf (shapeOf axes) c' a) - (axes.getD a default).centre (coordOf (shapeOf axes) c a)
+            = e a + (j a : ℚ) * (axes.getD a default).length ∧
+          ((axes.getD a default).periodic = false → j a = 0) := by
+    intro ax hax s t hs ht hcen hoth
+    refine ⟨fun a => if a = ax then s * (axes.getD ax default).dx else 0, fun a => if a = ax then t else 0, ?_, ?_⟩
+    · rw [Finset.sum_eq_single ax]
+      · simp only [if_true]
+        obtain ⟨h1, h2⟩ := hdxle ax hax
+        have h0 : 0 ≤ hmax := le_trans h2.le h1
+        rcases hs with rfl | rfl <;> nlinarith
+      · intro b _ hb; simp [hb]
+      · intro hn; exact absurd (Finset.mem_range.mpr hax) hn
+    · intro a ha
+      by_cases hax' : a = ax
+      · subst hax'
+        simp only [if_true]
+        exact ⟨hcen, ht⟩
+      · simp only [hax', if_false]
+        rw [hoth a hax']
+        simp
+  rcases hadj with rfl | hf | hf
+  · exact ⟨fun _ => 0, fun _ => 0, by simp; exact sq_nonneg _, fun a _ => by simp⟩
+  · obtain ⟨ax, hs | hs⟩ := hf
+    · obtain ⟨_, _, hax, hset, _⟩ := hs
+      have hk : ax < axes.length := by unfold shapeOf at hax; simpa using hax
+      obtain ⟨c1, c2⟩ := coord_of_set axes p h hk hset
+      refine build ax hk 1 0 (Or.inl rfl) (fun _ => rfl) ?_ c2
+      rw [centre_coord_shift, c1]; push_cast; ring
+    · obtain ⟨_, _, hax, hper, h0, hset⟩ := hs
+      have hk : ax < axes.length := by unfold shapeOf at hax; simpa using hax
+      obtain ⟨c1, c2⟩ := coord_of_set axes p h hk hset
+      rw [per_getD axes hk] at hper
+      rw [shape_getD axes hk] at c1
+      have hn := (axis_wf axes p h hk).n_pos
+      refine build ax hk (-1) 1 (Or.inr rfl) (fun hp => by rw [hper] at hp; simp at hp) ?_ c2
+      rw [centre_coord_shift, c1, h0]
+      have : (((axes.getD ax default).n - 1 : ℕ) : ℚ) = ((axes.getD ax default).n : ℚ) - 1 := by
+        rw [Nat.cast_sub hn]; simp
+      rw [this]; unfold Axis.length; push_cast; ring
+  · obtain ⟨ax, hs | hs⟩ := hf
+    · obtain ⟨_, _, hax, hset, _⟩ := hs
+      have hk : ax < axes.length := by unfold shapeOf at hax; simpa using hax
+      obtain ⟨c1, c2⟩ := coord_of_set axes p h hk hset
+      refine build ax hk (-1) 0 (Or.inr rfl) (fun _ => rfl) ?_ (fun a ha => (c2 a ha).symm)
+      rw [centre_coord_shift, c1]; push_cast; ring
+    · obtain ⟨_, _, hax, hper, h0, hset⟩ := hs
+      have hk : ax < axes.length := by unfold shapeOf at hax; simpa using hax
+      obtain ⟨c1, c2⟩ := coord_of_set axes p h hk hset
+      rw [per_getD axes hk] at hper
+      rw [shape_getD axes hk] at c1
+      have hn := (axis_wf axes p h hk).n_pos
+      refine build ax hk 1 (-1) (Or.inl rfl) (fun hp => by rw [hper] at hp; simp at hp) ?_ (fun a ha => (c2 a ha).symm)
+      rw [centre_coord_shift, c1, h0]
+      have : (((axes.getD ax default).n - 1 : ℕ) : ℚ) = ((axes.getD ax default).n : ℚ) - 1 := by
+        rw [Nat.cast_sub hn]; simp
+      rw [this]; unfold Axis.length; push_cast; ring
+
+
+/-- **Droplets whose centres are further apart than `R₁ + R₂ + h` (periodic metric, `h` ≥ every cell size)
+are separated on the grid**: no cell is covered by both and no covered cells are face neighbours. -/
+theorem separated_of_distance {p q : List ℚ} (hp : GridWF axes p) (hq : GridWF axes q) (R1 R2 hmax : ℚ)
+    (h1 : 0 ≤ R1) (h2 : 0 ≤ R2) (hh : ∀ a ∈ axes, a.dx ≤ hmax) (h0 : 0 ≤ hmax)
+    (hdist : (R1 + R2 + hmax) ^ 2 ≤ cdist2 axes p q) {c c' : ℕ}
+    (m1 : ballMask axes p R1 c = true) (m2 : ballMask axes q R2 c' = true) :
+    c ≠ c' ∧ ¬ FaceAdj (shapeOf axes) (perOf axes) c c' ∧ ¬ FaceAdj (shapeOf axes) (perOf axes) c' c := by
+  by_contra hcon
+  have hadj : c = c' ∨ FaceAdj (shapeOf axes) (perOf axes) c c' ∨ FaceAdj (shapeOf axes) (perOf axes) c' c := by
+    by_contra hn
+    push Not at hn
+    exact hcon ⟨hn.1, hn.2.1, hn.2.2⟩
+  obtain ⟨e, j, hes, hej⟩ := step_offsets axes hp hmax hh hadj
+  obtain ⟨_, hD1⟩ := (ballMask_iff axes p R1 c).mp m1
+  obtain ⟨_, hD2⟩ := (ballMask_iff axes q R2 c').mp m2
+  rw [D_eq_sum axes hp c] at hD1
+  rw [D_eq_sum axes hq c'] at hD2
+  -- per axis: the centre difference is bounded by the combination of the three offsets
+  have hax : ∀ a ∈ Finset.range axes.length,
+      cdiff axes p q a ^ 2 ≤ (U axes q c' a + (-(U axes p c a)) + (-(e a))) ^ 2 := by
+    intro a ha
+    have ha' := Finset.mem_range.mp ha
+    obtain ⟨hcen, hj0⟩ := hej a ha'
+    have hL := length_pos _ (axis_wf axes p hp ha')
+    have hz : U axes q c' a + (-(U axes p c a)) + (-(e a)) =
+        (p.getD a 0 - q.getD a 0) + ((j a + wrapCount axes p c a - wrapCount axes q c' a : ℤ) : ℚ) * (axes.getD a default).length := by
+      rw [U_eq_unwrapped, U_eq_unwrapped]
+      have : (axes.getD a default).centre (coordOf (shapeOf axes) c' a) =
+          (axes.getD a default).centre (coordOf (shapeOf axes) c a) + e a + (j a : ℚ) * (axes.getD a default).length := by
+        linarith
+      rw [this]; push_cast; ring
+    unfold cdiff
+    by_cases hper : (axes.getD a default).periodic = true
+    · rw [if_pos hper]
+      exact wrapDiff_min _ _ _ hL _ hz
+    · rw [if_neg hper]
+      have hper' : (axes.getD a default).periodic = false := by simpa using hper
+      have hj := hj0 hper'
+      have w1 : wrapCount axes p c a = 0 := by unfold wrapCount; simp only; rw [hper']; simp
+      have w2 : wrapCount axes q c' a = 0 := by unfold wrapCount; simp only; rw [hper']; simp
+      rw [hz, hj, w1, w2]; simp
+  have hle : cdist2 axes p q ≤ ∑ a ∈ Finset.range axes.length, (U axes q c' a + (-(U axes p c a)) + (-(e a))) ^ 2 :=
+    Finset.sum_le_sum hax
+  have hlt := minkowski3 (Finset.range axes.length) (fun a => U axes q c' a) (fun a => -(U axes p c a)) (fun a => -(e a))
+    R2 R1 hmax h2 h1 h0 (by simpa [pow_two] using hD2) (by
+      have : ∑ a ∈ Finset.range axes.length, (-(U axes p c a)) ^ 2 = ∑ a ∈ Finset.range axes.length, U axes p c a ^ 2 :=
+        Finset.sum_congr rfl fun a _ => by ring
+      rw [this]; simpa [pow_two] using hD1.le) (by
+      have : ∑ a ∈ Finset.range axes.length, (-(e a)) ^ 2 = ∑ a ∈ Finset.range axes.length, e a ^ 2 :=
+        Finset.sum_congr rfl fun a _ => by ring
+      rw [this]; exact hes)
+  have : (R1 + R2 + hmax) ^ 2 < (R2 + R1 + hmax) ^ 2 := lt_of_le_of_lt (le_trans hdist hle) hlt
+  nlinarith
+
+/-- emulsions: pairwise distant centres ⇒ `Separated` -/
+theorem separated_of_distances (balls : List (List ℚ × ℚ)) (hwf : ∀ b ∈ balls, GridWF axes b.1)
+    (hR : ∀ b ∈ balls, 0 ≤ b.2) (hmax : ℚ) (hh : ∀ a ∈ axes, a.dx ≤ hmax) (h0 : 0 ≤ hmax)
+    (hdist : ∀ b1 ∈ balls, ∀ b2 ∈ balls, b1 ≠ b2 → (b1.2 + b2.2 + hmax) ^ 2 ≤ cdist2 axes b1.1 b2.1) :
+    Separated axes balls := by
+  intro b1 hb1 b2 hb2 hne c c' m1 m2
+  exact separated_of_distance axes (hwf b1 hb1) (hwf b2 hb2) b1.2 b2.2 hmax (hR b1 hb1) (hR b2 hb2) hh h0
+    (hdist b1 hb1 b2 hb2 hne) m1 m2
+
+end DV.C01
+
+namespace DV.C01
+open Finset BigOperators DV.Merge DV.MergeInv DV.Label DV.LabelInv DV.GridGeom DV.Render DV.BallConn DV.C02
+
+variable (axes : List Axis)
+
+/-- **C01 in the model, from physical hypotheses only.**  Any number of droplets on any well-formed grid
+(any dimension ≥ 1, anisotropic spacing, any periodicity mask), such that
+* the centres of any two of them are at least `Rᵢ + Rⱼ + h` apart under the grid's periodic metric, `h` being a
+  bound on the cell size (WELL-SEPARATED), and
+* each droplet is resolved (on periodic axes `2(R + dx) ≤ L`, on the other axes the sphere lies inside the box)
+  and covers at least one cell centre (RESOLVABLE):
+then for every droplet the pipeline rendering → labelling → periodic merging forms one cluster that consists
+of exactly the cells whose centres the droplet covers; its volume is the number of those cells (× cell
+volume), and its position in grid coordinates lies within HALF A CELL of the droplet's centre along every
+axis (up to whole periods along periodic axes only). -/
+theorem C01_emulsion_model (balls : List (List ℚ × ℚ)) (hwf : ∀ b ∈ balls, GridWF axes b.1) (hd : 0 < axes.length)
+    (hmax : ℚ) (hh : ∀ a ∈ axes, a.dx ≤ hmax) (h0 : 0 ≤ hmax)
+    (hdist : ∀ b1 ∈ balls, ∀ b2 ∈ balls, b1 ≠ b2 → (b1.2 + b2.2 + hmax) ^ 2 ≤ cdist2 axes b1.1 b2.1)
+    (hres : ∀ b ∈ balls, FullyResolved axes b.1 b.2)
+    (b : List ℚ × ℚ) (hb : b ∈ balls) (c0 : ℕ) (hc0 : ballMask axes b.1 b.2 c0 = true) :
+    let mask := emulsionMask axes balls
+    let L := labelFn (shapeOf axes) mask
+    let cells := List.range (numCells (shapeOf axes))
+    let st := mergeLoop (fun a => (shapeOf axes).getD a 1) L (initSt (coordOf (shapeOf axes)) L cells)
+      (edgesOf (shapeOf axes) (perOf axes))
+    (∀ c, st.lab c = st.lab c0 ↔ ballMask axes b.1 b.2 c = true) ∧
+    st.vol (st.lab c0) = (((Finset.range (numCells (shapeOf axes))).filter fun c => ballMask axes b.1 b.2 c = true).card : ℚ) ∧
+    ∃ m : ℕ → ℤ, (∀ a, a < axes.length → (axes.getD a default).periodic = false → m a = 0) ∧ ∀ a, a < axes.length →
+      |(axes.getD a default).lo + (axes.getD a default).dx * st.pos (st.lab c0) a
+        - (m a : ℚ) * (axes.getD a default).length - b.1.getD a 0| < (axes.getD a default).dx / 2 := by
+  have hR : ∀ b ∈ balls, 0 ≤ b.2 := fun b hb => (hres b hb 0 hd).nonneg
+  exact emulsion_droplet_located axes balls hwf (separated_of_distances axes balls hwf hR hmax hh h0 hdist) hd b hb
+    (hres b hb) c0 hc0
+
+end DV.C01
+
+namespace DV.C01
+open DV.Render DV.BallConn
+/-- non-vacuity of the hypotheses of `C01_emulsion_model`: two droplets of radius 3/2 at (3,3) and (9,9) on a
+12×12 fully periodic unit grid (cell size bound 1) -/
+def axes12 : List Axis := [⟨0, 1, 12, true⟩, ⟨0, 1, 12, true⟩]
+
+example : ((3/2 : ℚ) + 3/2 + 1) ^ 2 ≤ cdist2 axes12 [3, 3] [9, 9] := by decide +kernel
+
+example : FullyResolved axes12 [3, 3] (3/2) := by
+  intro k hk
+  have : k = 0 ∨ k = 1 := by simp [axes12] at hk; omega
+  rcases this with rfl | rfl <;>
+  · refine ⟨by norm_num, ?_, ?_⟩
+    · intro _; simp [axes12, Axis.length]; norm_num
+    · intro hp; simp [axes12] at hp
+
+example : ballMask axes12 [3, 3] (3/2) (3 * 12 + 3) = true := by decide +kernel
+end DV.C01
